@@ -20,25 +20,25 @@ type decCall struct {
 
 // arm is one `case <number>:` clause of the generated field switch.
 type arm struct {
-	num      int64
-	clause   *ast.CaseClause
-	wtSet    []string // accepted wire types (nil = no test at all)
-	calls    []decCall
-	field    *protogen.Field // descriptor field (nil for extensions)
-	ext      *protogen.Extension
-	isOneof  bool
+	num     int64
+	clause  *ast.CaseClause
+	wtSet   []string // accepted wire types (nil = no test at all)
+	calls   []decCall
+	field   *protogen.Field // descriptor field (nil for extensions)
+	ext     *protogen.Extension
+	isOneof bool
 }
 
 type unmarshalShape struct {
-	fn        *ast.FuncDecl
-	loop      *ast.ForStmt
-	sw        *ast.SwitchStmt
-	arms      []*arm
-	deflt     *ast.CaseClause
-	resetPos  token.Pos
-	decObj    types.Object
-	wtObj     types.Object
-	tagObj    types.Object
+	fn       *ast.FuncDecl
+	loop     *ast.ForStmt
+	sw       *ast.SwitchStmt
+	arms     []*arm
+	deflt    *ast.CaseClause
+	resetPos token.Pos
+	decObj   types.Object
+	wtObj    types.Object
+	tagObj   types.Object
 }
 
 func wtName(e ast.Expr) string {
